@@ -122,7 +122,7 @@ def run_case(desc, seed):
         return {"counters": {"graphs": desc["stop"] - desc["start"], "graphs_nontrivial": len(nontriv)},
                 "outcome": f"{nU}x{nV}:sizes={sorted((k for k in sizes if k is not None))}", "viol": _dedupe(viol),
                 "sample": {"nU": nU, "nV": nV, "graph": G.adjacency(G.masks_from_index(desc["start"] + 5 if desc["stop"] - desc["start"] > 5 else desc["start"], nU, nV), nV)},
-                "nt_count": len(nontriv)}
+                "nt_count": len(nontriv), "eval_count": desc["stop"] - desc["start"]}
     # ---- table consequence
     from renormalizer.model import Model
     from renormalizer.mps import Mpo
